@@ -43,7 +43,7 @@ def _eq_hook(a, b):
 class World:
     """one inference problem: model (param_list, state_list), user's Parameter list, scripted proposals and cost"""
 
-    def __init__(self, name, model_params, model_states, user, target, what=""):
+    def __init__(self, name, model_params, model_states, user, target, what="", constraint=None):
         # user: [(name, low, high, logscale)] in the order the user lists them
         self.name, self.what = name, what
         self.model_params, self.model_states, self.user = list(model_params), list(model_states), list(user)
@@ -55,6 +55,8 @@ class World:
         self.choice_k = 0
         self.trace = []                         # proposals handed out (user order, sampling scale)
         self.qlog = []                          # np.quantile calls: (length, q, result)
+        self.constraint = constraint            # (population size, name of the state adjusted to conserve it) or None
+        self.x0_seen = None                     # initial state vector the last cost was computed from
 
     # ---- prior
     def density(self, i, x):
@@ -137,6 +139,12 @@ def worlds():
               [("gamma", -1.5, 0.25, True), ("beta", 0.125, 3.0, False)], {"beta": 0.75, "gamma": 1.0},
               what="two of three model parameters inferred, the log-scale one listed first, no initial states"),
         World("single", ["k"], ["A", "B"], [("k", 0.05, 4.0, False)], {"k": 1.5}, what="a single parameter"),
+        World("constrained-first-state", ["beta", "gamma"], ["S", "I", "R"],
+              [("I", 0.0, 10.0, False), ("beta", 0.0, 2.0, False)], {"beta": 0.5, "I": 4.0}, constraint=(100.0, "S"),
+              what="an initial state is inferred and the population size is conserved by adjusting the first state"),
+        World("constrained-last-state", ["beta", "gamma"], ["S", "I", "R"],
+              [("beta", 0.0, 2.0, False), ("I", 0.0, 10.0, False)], {"beta": 0.5, "I": 4.0}, constraint=(100.0, "R"),
+              what="an initial state is inferred and the population size is conserved by adjusting the last state"),
     ]
 
 
@@ -176,12 +184,31 @@ def build(repo, w, constraint=None):
 
     def set_param(loss, vec):
         w.installed = [float(v) for v in (vec.tolist() if isinstance(vec, NumArr) else list(vec))]
+        # what the loss object's update function does with the state part: the inferred initial values go into its initial state vector
+        nP = len(w._target_param)
+        for j, sname in enumerate(w._target_state):
+            loss.attrs["_x0"][w.model_states.index(sname)] = w.installed[nP + j]
 
     def cost(loss, *a, **k):
         w.cost_calls += 1
         if w.installed is None:
             raise Raised("RuntimeError(cost before parameters were installed)")
-        return w.cost_of(w.installed)
+        c = w.cost_of(w.installed)
+        if w.constraint is not None:
+            # the solution starts from the loss object's initial state: a total that differs from the declared population size shows in the cost
+            x0 = [float(v) for v in loss.attrs["_x0"].tolist()]
+            c = c + 0.5 * abs(sum(x0) - w.constraint[0])
+        return c
+
+    def state_index(ode_, name):
+        names = [name] if isinstance(name, (str, Obj)) else list(name)
+        out = []
+        for nm in names:
+            nm = nm.attrs["ID"] if isinstance(nm, Obj) else nm
+            if nm not in w.model_states:
+                raise Raised("InputError(unknown state %s)" % nm)
+            out.append(w.model_states.index(nm))
+        return out
 
     def choice(a, size=None, replace=True, p=None, **k):
         w.choice_k += 1
@@ -197,7 +224,7 @@ def build(repo, w, constraint=None):
         return NumArr([0.05 * (r + 1) + 0.01 * abs(sum(m)) for r in range(len(rows))])
     summ.update({
         "Parameter.random_sample": random_sample, "Parameter.density": density,
-        "Loss._setParam": set_param, "Loss._setParamStateInput": set_param, "Loss.cost": cost,
+        "Loss._setParam": set_param, "Loss._setParamStateInput": set_param, "Loss.cost": cost, "Model.get_state_index": state_index,
         "np.random.choice": choice, "rmvnorm": rmvnorm, "dmvnorm": dmvnorm, "np.quantile": (lambda a, q, **k: w.qlog.append((len(list(a)), q, _quantile(a, q))) or w.qlog[-1][2]), "np.percentile": lambda a, q, **k: _quantile(a, q / 100.0),
         "np.prod": lambda a, **k: _prod(a), "_get_sigma": lambda *a, **k: Tok("sigma"), "ABC.sigma_nearest_neighbours": lambda me_, *a, **k: Tok("sigma"),
         "logging.warn": lambda *a, **k: None, "logging.warning": lambda *a, **k: None, "logging.info": lambda *a, **k: None, "print": lambda *a, **k: None,
@@ -215,6 +242,8 @@ def build(repo, w, constraint=None):
     ab = Abs({}, types, summ, me, {}, eq=_eq_hook, budget=400000)
     ab.class_methods = set(abc.methods) | set(abc.getters)
     ab.module = mod
+    if constraint is None:
+        constraint = w.constraint
     kind, out = ab.run_function(init.node, {"loss_object": loss, "parameters": params, "constraint": constraint})
     if kind != "return":
         raise Raised("ABC.__init__ raises %s" % out)
@@ -371,6 +400,11 @@ def check_runs(repo, res, rule="R-ACCEPT"):
                 me, summ, types, abc, mod = build(repo, w)
                 kind, out = call(me, abc, mod, summ, types, "get_posterior_sample", N=4, tol=[0.25, 0.2], G=2)
                 ft = me.attrs.get("final_tol")
+                if kind != "return" or isinstance(ft, bool) or not isinstance(ft, (int, float)):
+                    n += 1
+                    res.violated("R-SCHED", gp, tag, "a two-generation run under the schedule [0.25, 0.2] %s" % (
+                        "raises %s" % (out,) if kind != "return" else "leaves final_tol = %r instead of the last tolerance" % (ft,)), node=gp.node if gp else None)
+                    continue
                 tol2 = ft * 2 if form == "scalar" else [ft * 2, ft]
                 kind2, out2 = call(me, abc, mod, summ, types, "continue_posterior_sample", N=4, tol=tol2, G=1 if form == "scalar" else 2)
             except Undecided as e:
